@@ -507,6 +507,20 @@ fn run(ctx: &mut Ctx) {
         t.drift = 0;
         b[l].1 = t.encode();
         inject(ctx, run, "malformed TRG payload", b, true);
+        // every single reserved bit of the TRG packet, one at a time, inside the otherwise valid event
+        {
+            let ti = base.iter().position(|x| x.0 == "ATAT").unwrap();
+            let reserved: Vec<(usize, u32)> = std::iter::once((0usize, 31u32)).chain((16..31).map(|b| (9, b))).chain((0..32).map(|b| (12, b))).chain((24..32).map(|b| (13, b))).chain((8..32).map(|b| (16, b))).chain((8..32).map(|b| (17, b))).collect();
+            for (k, (w, bit)) in reserved.iter().enumerate() {
+                if (k + i as usize) % 4 != 0 {
+                    continue;
+                }
+                let mut b = base.clone();
+                let v = u32::from_le_bytes(b[ti].1[4 * w..4 * w + 4].try_into().unwrap()) | (1 << bit);
+                b[ti].1[4 * w..4 * w + 4].copy_from_slice(&v.to_le_bytes());
+                inject(ctx, run, "malformed TRG payload (one reserved bit set)", b, true);
+            }
+        }
         // malformed wire / pad payloads
         let mut b = base.clone();
         let k = b[wi].1.len() - 1;
